@@ -91,6 +91,28 @@ class CGraph:
         retval += '\n'
         return retval
 
+    def _writes_into_constants(self):
+        """
+        the recorded in-place writes (setitem nodes, in recording order) whose
+        target shares memory with a constant node of the graph, i.e. with a
+        Function(value) that is not an independent variable
+        """
+        key = (len(self.functionList), tuple(id(f) for f in self.independentFunctionList))
+        if getattr(self, '_wic_key', None) != key:
+            def storage(v):
+                return getattr(v, 'data', v)
+            writes = [f for f in self.functionList if is_set(f.setitem)]
+            consts = []
+            if writes:
+                indep = set(key[1])
+                consts = [storage(f.x) for f in self.functionList
+                          if len(f.args) == 1 and f.args[0] is f and id(f) not in indep]
+                consts = [c for c in consts if isinstance(c, numpy.ndarray) and c.size > 0]
+            self._wic = [f for f in writes if isinstance(storage(f.args[0].x), numpy.ndarray)
+                         and any(numpy.may_share_memory(storage(f.args[0].x), c) for c in consts)]
+            self._wic_key = key
+        return self._wic
+
     def pushforward(self,x_list):
         """
         Apply a global push forward of the computational procedure defined by
@@ -99,6 +121,14 @@ class CGraph:
         At first, the arguments of the global functions are read into the independent functions.
         Then the computational graph is walked and at each function node
         """
+        # undo the in-place writes of the previous evaluation into work arrays
+        # that are constants of the graph (wrapped by hand, e.g.
+        # acc = Function(UTPM(zeros)); acc += ...): no recorded node re-creates
+        # their storage, so the evaluation would start from the end state of
+        # the previous one
+        for f in self._writes_into_constants()[::-1]:
+            f.args[0].x[f.setitem[0]] = f.setitem[1]
+
         # populate independent arguments with new values
         for nf,f in enumerate(self.independentFunctionList):
             f.args[0].x = x_list[nf]
